@@ -27,6 +27,8 @@ RULE = (
     "plain and --bgzip output), stat --cigar, realign, phase, find_path, order_gfa. Oracle: every output equals the "
     "plain/plain baseline; .gvi/.gsi associations equal after resolving each offset in its own file. Non-trivial = a record "
     "starts in a block other than the first and a line straddles a block boundary. Distinct by SHA-1 of the case."
+    " Later additions: BGZF header bytes other than htslib's, sort to standard output, read names outside "
+    "ASCII, blank lines in graphs; stored offsets are read back through the library inside the oracle."
 )
 ASSUMPTIONS = ["order_gfa output file names derive from the input file name; contents are compared per chromosome"]
 
